@@ -628,6 +628,25 @@ def direct_private_atoms():
              input=dict(compound="B4C on a private table"))
 
 
+def direct_single_element_density():
+    """a one-element compound at a density of the caller's choosing (diamond, amorphous Si, a porous film): the SLD is linear in
+    that density and follows r_e N_A density/mass sum(n f) like any compound"""
+    for sym, rho in (("C", 3.52), ("Si", 2.2), ("Au", 9.65), ("Fe", 3.9), ("Cu2", 4.0)):
+        a = attempt(xsf.xray_sld, sym, density=rho, energy=8.0)
+        b = attempt(xsf.xray_sld, sym, density=2 * rho, energy=8.0)
+        f = formulas.formula(sym)
+        el = list(f.atoms)[0]
+        f1, f2 = sf_scalar(T[el.number], energy=8.0)
+        k = R_E * N_A * rho / el.mass * 1e-8
+        ok = not isinstance(a, Exception) and not isinstance(b, Exception)
+        if ok:
+            ok = close(float(a[0]), k * f1, abs(k * f1), rel=1e-6) and close(float(a[1]), k * f2, abs(k * f2), rel=1e-6) and \
+                close(float(b[0]), 2 * float(a[0]), abs(2 * float(a[0])), rel=1e-12)
+        if not ok:
+            fail("C05:single-element-density", "xray_sld(%r, density=%r, energy=8.0) = %r, at twice the density %r; r_e N_A density/mass f = %r"
+                 % (sym, rho, a, b, (k * f1, k * f2)), input=dict(compound=sym, density=rho, energy=8.0))
+
+
 def direct_conversion():
     for x in (0.5, 1.5418, 8.04, 30.0):
         w = float(xsf.xray_wavelength(x))
@@ -854,6 +873,7 @@ def main():
     direct_f0()
     direct_package_level()
     direct_private_atoms()
+    direct_single_element_density()
 
     json.dump(dict(cases=cases, meta=meta, direct_fails=direct_fails,
                    stats=dict(elements=[e.symbol for e in els], tables=len(TAB), element_stream=st_el,
